@@ -1141,26 +1141,36 @@ extern int etext,end;
 
 struct osMemMap **osMemMap(int mask)
 {
-  static struct osMemMap	mmv[MAX_MMAPS];
-  static struct osMemMap*	mmvp[MAX_MMAPS];
+  static struct osMemMap	*mmv  = 0;
+  static struct osMemMap*	*mmvp = 0;
+  static unsigned int		mmc  = 0;
   
   struct osMemMap		*mm;
   Pointer			slo;
   static FILE *fp =0 ;
   char  line[1024];
   char  maps[100];
-  unsigned int i,read_only;
+  unsigned int i,n,read_only;
   unsigned long lo, hi;
   char perm[4];
 
 
   if (fp) fclose(fp);
   slo = &mm;
-  mm  = mmv;
   sprintf(maps,"/proc/%d/maps",getpid());
   fp= fopen(maps,"r");
 
-  while (fgets(line,1022,fp)) {
+  /* At most one entry per line, plus the end marker: make room first. */
+  for (n = 2; fgets(line,1022,fp); n++) ;
+  if (n > mmc) {
+    mmc  = n + MAX_MMAPS;
+    mmv  = (struct osMemMap *)  realloc(mmv,  mmc * sizeof(*mmv));
+    mmvp = (struct osMemMap **) realloc(mmvp, mmc * sizeof(*mmvp));
+  }
+  rewind(fp);
+  mm  = mmv;
+
+  while (mm < mmv + mmc - 1 && fgets(line,1022,fp)) {
 #if 0
     fputs(line,stdout);
 #endif
@@ -1184,7 +1194,7 @@ struct osMemMap **osMemMap(int mask)
     /* we ARE looking for data maps */
     /* check if the previous one was a data map and 
        if contiguous collapse them */
-    else if (mm[-1].use == OSMEM_DDATA && mm[-1].hi == (Pointer) lo)
+    else if (mm > mmv && mm[-1].use == OSMEM_DDATA && mm[-1].hi == (Pointer) lo)
       mm[-1].hi = (Pointer) hi;
     /* "new" data map - record it */
     else {
